@@ -222,7 +222,7 @@ def known_label(o):
 
 
 class Path:
-    __slots__ = ('blocks', 'conds', 'events', 'outcome', 'ret_site', 'kind', 'event_args')
+    __slots__ = ('blocks', 'conds', 'events', 'outcome', 'ret_site', 'kind', 'event_args', 'field_stores')
 
     def __init__(self):
         self.blocks = []
@@ -232,6 +232,7 @@ class Path:
         self.ret_site = None
         self.kind = 'return'
         self.event_args = {}
+        self.field_stores = {}
 
     def cond_map(self):
         m = {}
@@ -259,6 +260,7 @@ def enumerate_paths(body, facts=None, start=0, max_paths=50000, stop_calls=None,
             p.conds = conds
             p.events = events
             p.event_args = env.get('__args__', {})
+            p.field_stores = env.get('__fa__', {})
             p.kind = 'loop'
             p.outcome = 'LOOP'
             out.append(p)
@@ -271,6 +273,17 @@ def enumerate_paths(body, facts=None, start=0, max_paths=50000, stop_calls=None,
                 continue
             lhs = s['lhs']
             if len(lhs) != 1:
+                # field store: remember the path-specific description of the stored value
+                if lhs[-1].startswith('.') and s['rv']['r'] in ('use', 'agg'):
+                    fa = dict(env.get('__fa__', {}))
+                    try:
+                        if s['rv']['r'] == 'use':
+                            fa[(bb, j)] = (lhs[-1][1:], describe(refine(body, body.origin_of_operand(s['rv']['o']), env)))
+                        else:
+                            fa[(bb, j)] = (lhs[-1][1:], describe(refine(body, body._origin_of_def(Site(body, bb, j), s, 0), env)))
+                    except Exception:
+                        pass
+                    env['__fa__'] = fa
                 continue
             rv = s['rv']
             if lhs[0] == 0:
@@ -294,6 +307,7 @@ def enumerate_paths(body, facts=None, start=0, max_paths=50000, stop_calls=None,
             p.conds = conds
             p.events = events
             p.event_args = env.get('__args__', {})
+            p.field_stores = env.get('__fa__', {})
             p.ret_site = last0
             if last0 is not None:
                 if last0.is_term:
@@ -330,6 +344,7 @@ def enumerate_paths(body, facts=None, start=0, max_paths=50000, stop_calls=None,
                 p.conds = conds
                 p.events = events
                 p.event_args = env.get('__args__', {})
+                p.field_stores = env.get('__fa__', {})
                 p.kind = 'stop'
                 p.outcome = 'call:' + short(callee_name(t))
                 out.append(p)
@@ -340,6 +355,7 @@ def enumerate_paths(body, facts=None, start=0, max_paths=50000, stop_calls=None,
                 p.conds = conds
                 p.events = events
                 p.event_args = env.get('__args__', {})
+                p.field_stores = env.get('__fa__', {})
                 p.kind = 'diverge'
                 p.outcome = 'diverge:' + short(callee_name(t))
                 out.append(p)
